@@ -6,6 +6,7 @@ import (
 	"go/types"
 	"hash/fnv"
 	"os"
+	"os/exec"
 	"path/filepath"
 	"sort"
 	"strings"
@@ -443,6 +444,11 @@ func checkPackage(u *gengotypes.Universe, p gengotypes.Package, files []string, 
 				poss = append(poss, f.Decls[0].Pos(), f.Decls[len(f.Decls)-1].End()-1)
 			}
 			for _, pos := range poss {
+				if tf := p.FileSet().File(pos); tf != nil && filepath.Dir(tf.Name()) != dir && filepath.Dir(p.FileSet().Position(pos).Filename) != dir {
+					// a rewritten copy outside the package directory (cgo) and a position that no //line directive maps back
+					// into the source (the copy's own header): it lies in no file of the package
+					continue
+				}
 				lp := u.LocateInPackage(pos)
 				if lp != p {
 					got := "<nil>"
@@ -595,6 +601,20 @@ func TestC13(t *testing.T) {
 		m := modspec.Mod{Path: "m", Go: "1.21", Pkgs: []modspec.Pkg{{Dir: "web", Name: "web", Other: []modspec.File{{Name: "web.go", Data: "package web\n\nimport \"net/http\"\n\nvar Client http.Client\n"}}}}}
 		writeMod(&m, dir)
 		c13ClosureSweep(r, "std-http", dir, true)
+	}
+	if r.Shard == r.NSh-1 {
+		// a module package with a cgo file: go/packages parses the cgo-rewritten copy from the build cache, which points back to
+		// the source through //line directives
+		if _, err := exec.LookPath("gcc"); err == nil && os.Getenv("CGO_ENABLED") != "0" {
+			dir := tempDir()
+			defer os.RemoveAll(dir)
+			m := modspec.Mod{Path: "m", Go: "1.21", Pkgs: []modspec.Pkg{{Dir: "cg", Name: "cg", Other: []modspec.File{
+				{Name: "cg.go", Data: "// Copyright header\n\n// Package cg uses cgo.\npackage cg\n\n/*\nstatic int add(int a, int b) { return a + b; }\n*/\nimport \"C\"\n\n// InCgoFile is declared in the file that imports C.\ntype InCgoFile struct{ A int }\n\n// Sum adds through C.\nfunc Sum(a, b int) int { return int(C.add(C.int(a), C.int(b))) }\n\nconst InCgoConst = 1\n"},
+				{Name: "plain.go", Data: "package cg\n\n// Plain is declared in an ordinary file.\ntype Plain struct{ B int }\n\nfunc (Plain) M() {}\n"},
+			}}}}
+			writeMod(&m, dir)
+			c13ClosureSweep(r, "cgo", dir, true)
+		}
 	}
 }
 
